@@ -70,6 +70,13 @@ func genPkgContents(r *rng.R, t *SrcTree) []wire.Content {
 			// as links with that literal target
 			cs = append(cs, wire.Content{Src: rng.Pick(r, []string{"/usr/bin/f0", "../lib/target", "rel", filepath.Join(t.Root, "bin/tool"), filepath.Join(t.Root, "etc"), filepath.Join(t.Root, "tree")}), Dst: fmt.Sprintf("/usr/bin/l%d", i), Type: "symlink", Packager: tag()})
 		case 8:
+			if r.Chance(1, 4) {
+				// a tree laid over /usr, /etc or /var: the directories other packages own are only implied (the root itself
+				// as a destination is the recorded C05 finding and is left to C05)
+				sub := rng.Pick(r, []string{"usr", "etc", "var"})
+				cs = append(cs, wire.Content{Src: filepath.Join(t.Root, "fsroot", sub), Dst: "/" + sub, Type: "tree", Info: fi(), Packager: tag()})
+				break
+			}
 			cs = append(cs, wire.Content{Src: rng.Pick(r, []string{filepath.Join(t.Root, "tree"), filepath.Join(t.Root, "tree/sub")}), Dst: fmt.Sprintf("/usr/share/app/t%d", i), Type: "tree", Info: fi(), Packager: tag()})
 		case 9:
 			cs = append(cs, wire.Content{Dst: fmt.Sprintf("/var/log/app%d.log", i), Type: "ghost", Info: fi(), Packager: tag()})
@@ -237,5 +244,85 @@ func runC01(c *Ctx) error {
 			}
 		}
 	}
+	c01SharedConfiguration(c, tree)
 	return nil
+}
+
+// c01SharedConfiguration: one configuration held in memory – entries for every packager, entries tagged for one, an
+// override block per format – is asked for every format in turn (Config.Get, WithDefaults, Package: what a release tool
+// does). The payload of each package must be what the configured contents denote for that format, whichever formats
+// were asked for before.
+func c01SharedConfiguration(c *Ctx, tree *SrcTree) {
+	fam := c.Rep.Family("shared-configuration", "one nfpm.Config (contents for all packagers and contents tagged for one, an override block for every format) asked for the five formats in turn, in two orders: every package decoded and its payload compared with what the configured contents denote for that format (model of planning + spec); non-trivial = more than one payload member")
+	var raw []wire.Content
+	for _, f := range Formats {
+		raw = append(raw, wire.Content{Src: filepath.Join(tree.Root, "etc/app.conf"), Dst: "/etc/app/only-" + f + ".conf", Type: "config", Packager: f})
+		raw = append(raw, wire.Content{Src: filepath.Join(tree.Root, "bin/tool"), Dst: "/usr/bin/common-after-" + f})
+	}
+	raw = append(raw, wire.Content{Dst: "/var/lib/app", Type: "dir"}, wire.Content{Src: "/usr/bin/common-after-deb", Dst: "/usr/bin/lnk", Type: "symlink"})
+	s := &PkgSpec{Raw: raw, Umask: 0o022, MTime: 1700000000}
+	rev := []string{}
+	for i := len(Formats) - 1; i >= 0; i-- {
+		rev = append(rev, Formats[i])
+	}
+	for _, order := range [][]string{Formats, rev} {
+		cfg := &nfpm.Config{Info: *s.Info(), Overrides: map[string]*nfpm.Overridables{}}
+		for _, f := range Formats {
+			cfg.Overrides[f] = &nfpm.Overridables{Depends: []string{"only-" + f}}
+		}
+		for step, f := range order {
+			in := map[string]any{"contents": raw, "overrides": "depends: [only-<format>] for every format", "order": order, "step": step + 1, "format": f}
+			gi, err := cfg.Get(f)
+			if err != nil {
+				c.Rep.Note("shared-configuration: Get(%s): %v", f, err)
+				continue
+			}
+			data, err := BuildPkg(f, nfpm.WithDefaults(gi))
+			if err != nil {
+				fam.Eval(fmt.Sprintf("%v|%d", order, step), false)
+				c.Rep.Find(report.Finding{Property: "C01", Family: "shared-configuration", Shape: f + ":build-fails-when-configuration-is-shared",
+					What: fmt.Sprintf("the %s package of a configuration that was asked for %v before does not build: %v", f, order[:step], err), Input: in})
+				continue
+			}
+			dec, err := DecodePkg(f, data)
+			if err != nil {
+				c.Rep.Note("shared-configuration: decode %s: %v", f, err)
+				continue
+			}
+			fam.Eval(fmt.Sprintf("%v|%d", order, step), len(dec.Members) > 1)
+			fam.Count(f)
+			pc := wire.PlanCfg{Packager: f, Umask: s.Umask, MTime: s.MTime}
+			a, err := c.D.Ask(wire.PlanReq(pc, raw, fsoracle.Build(raw, false)))
+			if err != nil {
+				c.Rep.Note("driver: %v", err)
+				return
+			}
+			mcs, merr, perr := wire.ParseContents(a)
+			if perr != nil || merr != "" {
+				c.Rep.Note("shared-configuration: model plan: %v %s", perr, merr)
+				continue
+			}
+			ma, err := c.D.Ask(fmt.Sprintf("members %s %d %d %s", f, nowSentinel, s.MTime, wire.EncContentsOut(mcs)))
+			if err != nil {
+				c.Rep.Note("driver: %v", err)
+				return
+			}
+			model, merr2 := wire.ParseMembers(ma)
+			if merr2 != nil {
+				c.Rep.Note("shared-configuration: members answer: %v", merr2)
+				continue
+			}
+			AttachSources(dec, model)
+			ans, err := c.D.Ask(fmt.Sprintf("c01check %s %s %s", f, wire.EncContentsOut(mcs), wire.EncMembers(dec.Members)))
+			if err != nil {
+				c.Rep.Note("driver: %v", err)
+				return
+			}
+			if strings.HasPrefix(ans, "violated ") {
+				cl := strings.TrimPrefix(ans, "violated ")
+				c.Rep.Find(report.Finding{Property: "C01", Family: "shared-configuration", Shape: f + ":" + strings.SplitN(cl, "_", 2)[0] + ":configuration-shared",
+					What: fmt.Sprintf("the payload of the %s package of a configuration that was asked for %v before differs from what the contents denote: %s", f, order[:step], cl), Input: in})
+			}
+		}
+	}
 }
